@@ -113,6 +113,7 @@ struct Case
   size_t epoch_begin{0};           // index into `written` where the current epoch starts (last "w"-mode start)
   int run{0};
   int append_restarts{0};
+  bool overstart{false};   // the last start found more rotated files than max_backup_files
   bool unrecovered{false}; // an append-mode start left rotated files of this directory outside _created_files (Date: other days; DateAndTime: all)
   bool nonmono{false};
   uint64_t max_ts{0};
@@ -312,7 +313,7 @@ struct Case
     ++g_stats["oracle_" + kind];
     out << "ORACLE " << kind << " case=" << id << " op=" << opno << " scheme=" << scheme << " nonmono=" << (nonmono ? 1 : 0)
         << " arestarts=" << append_restarts << " unrecovered=" << (unrecovered ? 1 : 0) << " dst=" << (off_min != off_max ? 1 : 0)
-        << " " << detail << "\n";
+        << " overstart=" << (overstart ? 1 : 0) << " " << detail << "\n";
   }
 
   // ordering of the family files as the naming scheme reads them, oldest first
@@ -541,6 +542,7 @@ struct Case
       if (f.name == "log.log" && !f.ids.empty()) open_ts_of_first[f.ids.front()] = c.ts;
     emit(op.str(), v);
     (void)rotated_before;
+    overstart = count_rotated(v) > c.maxb;
     check_c14(v, count_rotated(v), false, 0, false);
   }
 
@@ -612,7 +614,7 @@ struct Case
         int64_t const from = std::max<int64_t>(ta, run_has_ts ? static_cast<int64_t>(run_max_ts / NS) : start_s);
         int64_t const g = grid_after(start_s, from);
         bool const time_reason = g >= 0 && static_cast<uint64_t>(g) * NS <= ts;
-        bool const size_reason = cfg.limit != 0 && cur_before.bytes + size > cfg.limit;
+        bool const size_reason = cfg.limit != 0 && cur_before.bytes + size >= cfg.limit; // >=: whether exact fill rotates is C14's subject
         if (!time_reason && !size_reason)
           oracle(off_min != off_max ? "dst-drift" : "time-split",
                  "id=" + std::to_string(idn) + " ts=" + std::to_string(ts) + " started a new file although no point of the schedule lies after id=" +
